@@ -901,7 +901,7 @@ class SizedReader:
                 break
             lines.append(line)
             seen += len(line)
-            if seen >= sizehint:
+            if sizehint is not None and seen >= sizehint:
                 break
         return lines
 
